@@ -13,17 +13,18 @@ Rec == ndJsonDeserialize(IOEnv.TRACE)
 
 VARIABLES l,        \* next line of the trace
           silent,   \* silent steps taken since the last event
-          started   \* operations whose future the driver has spawned
+          started   \* operations whose future the driver has spawned, in spawn order
 tvars == <<vars, l, silent, started>>
 
 Ev(name) == l <= Len(Rec) /\ Rec[l].ev = name /\ l' = l + 1 /\ silent' = 0
 E == Rec[l]
 
-TInit == Init /\ l = 1 /\ silent = 0 /\ started = {} /\ TLCSet(1, 0)
+SS == {started[i] : i \in DOMAIN started}
+TInit == Init /\ l = 1 /\ silent = 0 /\ started = <<>> /\ TLCSet(1, 0)
 
 (* ---- events ---- *)
 T_Reset ==
-  /\ Ev("Reset") /\ started' = {}
+  /\ Ev("Reset") /\ started' = <<>>
   /\ idCtr' = 0
   /\ fe' = [h \in Ops |-> [st |-> "idle", id |-> NoId, id2 |-> NoId, res |-> None]]
   /\ toBack' = <<>> /\ req' = <<>> /\ subIdx' = <<>> /\ bat' = {}
@@ -33,7 +34,7 @@ T_Reset ==
   /\ st' = "run" /\ rt' = "run" /\ wd' = "wait" /\ feOpen' = TRUE /\ closeCh' = <<>> /\ wdAlive' = TRUE
   /\ cause' = None /\ stRes' = None /\ rtRes' = None /\ fault' = {} /\ mgrAlive' = TRUE /\ closeSeen' = {} /\ fwd' = <<>>
 
-T_FeStart == Ev("FeStart") /\ E.h \in Ops /\ E.h \notin started /\ started' = started \cup {E.h} /\ UNCHANGED vars
+T_FeStart == Ev("FeStart") /\ E.h \in Ops /\ E.h \notin SS /\ started' = Append(started, E.h) /\ UNCHANGED vars
 
 T_WireOut ==
   /\ Ev("WireOut") /\ UNCHANGED started
@@ -65,9 +66,9 @@ ResMatches(r, e) ==
        [] e.k = "fail" -> r.why = e.why
        [] e.k = "restart" -> r.cause.e = e.cause
        [] OTHER -> TRUE
-T_FeDone == Ev("FeDone") /\ UNCHANGED started /\ E.h \in started /\ FeObserve(E.h) /\ ResMatches(fe'[E.h].res, E.res)
+T_FeDone == Ev("FeDone") /\ UNCHANGED started /\ E.h \in SS /\ FeObserve(E.h) /\ ResMatches(fe'[E.h].res, E.res)
 
-T_FeAbandon == Ev("FeAbandon") /\ UNCHANGED started /\ E.h \in started /\ FeAbandon(E.h)
+T_FeAbandon == Ev("FeAbandon") /\ UNCHANGED started /\ E.h \in SS /\ FeAbandon(E.h)
 T_SubNext == Ev("SubNext") /\ UNCHANGED started /\ SubNext(E.h) /\ Head(stream[E.h].buf) = E.n
 T_SubEnd == Ev("SubEnd") /\ UNCHANGED started /\ SubEnd(E.h) /\ stream[E.h].lagged = E.lagged
 T_SubUnsub == Ev("SubUnsub") /\ UNCHANGED started /\ SubUnsubStart(E.h)
@@ -80,7 +81,7 @@ T_Fault == /\ Ev("Fault") /\ UNCHANGED started
 T_SendFault == Ev("SendFault") /\ UNCHANGED started /\ StSendFails
 T_RecvFault == Ev("RecvFault") /\ UNCHANGED started /\ RtRecvFailsWith(E.f)
 
-Settled == toBack = <<>> /\ inq = <<>> /\ fwd = <<>> /\ \A h \in started : fe[h].st # "alloc"
+Settled == toBack = <<>> /\ inq = <<>> /\ fwd = <<>> /\ \A h \in SS : fe[h].st # "alloc"
 T_Sizes == /\ Ev("Sizes") /\ UNCHANGED <<vars, started>>
            /\ IF E.r = -1 THEN ~mgrAlive
               ELSE /\ mgrAlive /\ (rt # "run" \/ st # "run" \/ Settled)
@@ -98,7 +99,7 @@ T_Noop == (Ev("TransportCloseStart") \/ Ev("TransportCloseEnd") \/ Ev("Hold") \/
 (* and run the whole shutdown hand-over - has happened.  This is how the "eventually" parts of C05, C09 and C18 are decided  *)
 (* on finite traces.                                                                                                         *)
 ClientCanStep ==
-  \/ \E h \in started : ENABLED FeAlloc(h) \/ ENABLED FeEnqueue(h) \/ fe[h].st = "ready"
+  \/ \E h \in SS : ENABLED FeAlloc(h) \/ ENABLED FeEnqueue(h) \/ fe[h].st = "ready"
   \/ ENABLED StRecv \/ ENABLED RtRecv \/ ENABLED RtForward
   \/ \E h \in Subs : ENABLED SubUnsubEnqueue(h) \/ ENABLED SubDrainOne(h)
   \/ ENABLED StSendFails \/ ENABLED RtRecvFails
@@ -107,13 +108,27 @@ ClientCanStep ==
 T_Quiet == Ev("Quiet") /\ UNCHANGED <<vars, started>> /\ ~ClientCanStep
 (* the scenario is over: the connection has ended, so nothing may still be pending *)
 T_End == /\ Ev("End") /\ UNCHANGED <<vars, started>>
-         /\ \A h \in started : fe[h].st \in {"done", "abandoned"}
+         /\ \A h \in SS : fe[h].st \in {"done", "abandoned"}
          /\ \A h \in Subs : stream[h].rx \in {"none", "ended", "dropped"}
 
 (* ---- silent steps ---- *)
+(* The first poll of each spawned future happens in spawn order (FIFO run queue of the current_thread runtime), and in that   *)
+(* poll the id is taken and - when the front->back channel has room - the message is enqueued without yielding              *)
+(* (client.rs: next_request_id(); tx.send(..).await on a channel with a free permit).  So: ids are allocated in FeStart order, *)
+(* and allocation + enqueue are one step unless the channel is full or closed.                                              *)
+NextIdle == LET idle == {i \in DOMAIN started : fe[started[i]].st = "idle"} IN
+            IF idle = {} THEN {} ELSE {started[CHOOSE i \in idle : \A j \in idle : i <= j]}
+FeAllocEnq(h) ==
+  /\ fe[h].st = "idle" /\ feOpen /\ Len(toBack) < MaxQueue
+  /\ LET n == CASE Kind[h] = "call" -> 1 [] Kind[h] = "sub" -> 2 [] Kind[h] = "batch" -> IF "F10" \in Dev THEN 1 ELSE BatchN[h]
+     IN /\ idCtr' = idCtr + n
+        /\ fe' = [fe EXCEPT ![h] = [@ EXCEPT !.st = "sent", !.id = idCtr, !.id2 = IF Kind[h] = "sub" THEN idCtr + 1 ELSE NoId]]
+  /\ toBack' = Append(toBack, [t |-> Kind[h], h |-> h])
+  /\ UNCHANGED <<req, subIdx, bat, stream, seen, unsubSent, inq, nPeer, nTok, pushed, fault>> /\ UNCHANGED shutVars
 Silent ==
   /\ silent < MaxSilent /\ silent' = silent + 1 /\ l' = l /\ l <= Len(Rec) /\ UNCHANGED started
-  /\ \/ \E h \in started : FeAlloc(h) \/ FeEnqueue(h)
+  /\ \/ \E h \in NextIdle : IF feOpen /\ Len(toBack) < MaxQueue THEN FeAllocEnq(h) ELSE FeAlloc(h)
+     \/ \E h \in SS : FeEnqueue(h)
      \/ (~HeadSends /\ StRecv)
      \/ RtForward
      \/ \E h \in Subs : SubUnsubEnqueue(h) \/ SubDrainOne(h)
